@@ -177,3 +177,11 @@ pub fn __regex_escape(s: &str) -> (r: String) ensures r@ == rx_escape(s@) { unim
 #[verifier::external_body]
 pub fn __anyhow_context<T>(r: anyhow::Result<T>, _c: &str) -> (o: anyhow::Result<T>)
     ensures (o is Ok) == (r is Ok), o is Ok ==> o->Ok_0 == r->Ok_0 { unimplemented!() }
+
+// ---- the ` (no-eol)` ending of an escaped rendering (escaping.rs keep_trailing_no_eol)
+pub open spec fn m_noeol() -> Seq<char> { seq![' ', '(', 'n', 'o', '-', 'e', 'o', 'l', ')'] }
+/// `)` as an escape sequence
+pub open spec fn x29() -> Seq<char> { seq!['\\', 'x', '2', '9'] }
+/// an escaped rendering is written so that it does not END in ` (no-eol)` (the reader of `(escaped)` expectations drops such an ending):
+/// the closing parenthesis becomes `\x29`
+pub open spec fn protect(t: Seq<char>) -> Seq<char> { if is_suffix_of(m_noeol(), t) { t.drop_last() + x29() } else { t } }
